@@ -200,6 +200,11 @@ fn check_list<const V6: bool, const RLEN: usize>(specs: &[(Option<&'static str>,
     if let Some(want) = ref_evaluate(refs, &ip, random) {
         assert!(got == want, "C04.engine.evaluate: verdict differs from first-match-wins / fail-closed / default-allow evaluation");
         kani::cover!(true, "C04.cover.obligation_reached");
+    } else {
+        // the documentation leaves the verdict open for every input of this instance that gets here (a prefix/mask
+        // pair of unequal lengths in a rule that decides the outcome): only the absence of panics, overflows and
+        // out-of-bounds accesses in Rule::matches / RulesEngine::evaluate is decided for it
+        kani::cover!(true, "C04.cover.unspecified_input_panic_freedom_only");
     }
 }
 
